@@ -282,7 +282,43 @@ def rule_e(ck, R):
     ck.floor('C06.e', 'RegisterAccessCode enumerators', len(codes), 8)
 
 
+def rule_decoder_state(ck, R):
+    """C06.f: a frame that failed reception causes no memory access - including its tail.  After an invalid escape sequence
+    the SLIP decoder is in its skip-to-end-of-frame state; that state has to survive the return of regp_recv, or the next
+    call starts decoding in the middle of the damaged frame and delivers the rest of it as a frame of its own (with a
+    payload that happens to contain a frame image: executed and acknowledged).  So the decoder context regp_recv uses
+    belongs to the instance, not to the call; every way of setting up an instance or a channel initialises it."""
+    eng = R.engine({'early_ebusy', 'early_erxoverflow'})
+    ps = R.paths('regp_recv', 'C06.f', eng)
+    if ps is None:
+        return
+    bad = None
+    ndec = 0
+    for p in ps:
+        for e in p.calls('rfc1055_decode'):
+            ndec += 1
+            ctx = strip_cast(e.args[0])
+            if not (ctx[0] == '&' and sym.rooted_at(ctx[1], P)):
+                bad = bad or ('the SLIP decoder works on %s, an object of this call: its skip-to-end-of-frame state after an invalid escape is lost on return, '
+                              'and the next call parses the tail of the damaged frame as a new frame' % fmt(e.args[0]))
+    if ndec == 0:
+        return ck.broken('C06.f', 'regp_recv:decoder-state', R.where('regp_recv'), 'no rfc1055_decode call found')
+    ck.verdict(bad is None, 'C06.f', 'regp_recv:decoder-state', R.where('regp_recv'),
+               'the SLIP decoder context is part of the instance (%d decode sites): a damaged frame is skipped to its end even across calls' % ndec if bad is None else bad)
+    # initialisation: regp_init, regp_use_channel and the static initialiser
+    for fn in ('regp_init', 'regp_use_channel'):
+        psi = R.paths(fn, 'C06.f', R.engine(set()))
+        if psi is None:
+            continue
+        ok = all(any(e.name == 'rfc1055_context_init' and sym.rooted_at(strip_cast(e.args[0]), P) or
+                     (e.name == 'rfc1055_context_init' and strip_cast(e.args[0])[0] == '&' and sym.rooted_at(strip_cast(e.args[0])[1], P))
+                     for e in p.calls()) for p in psi)
+        ck.verdict(ok, 'C06.f', fn + ':decoder-state', R.where(fn),
+                   'initialises the instance\'s SLIP decoder context' if ok else 'leaves the instance\'s SLIP decoder context as it was (uninitialised, or in the state of the previous channel)')
+
+
 def run(ck):
+    ck.rule('C06.f', 'the SLIP decoder context of regp_recv belongs to the instance (its skip-to-end state after a damaged frame survives the call) and is initialised by regp_init / regp_use_channel')
     ck.rule('C06.a', 'on every path of regp_process: <= 1 backend access, <= 1 reply; a backend access is dominated by frame != NULL, error.id == 0, request type, matching word size and followed by exactly one reply; responses/meta/failed frames cause neither; nothing is stored in the instance')
     ck.rule('C06.b', 'the backend is called with the request\'s address, block size and payload through the accessor selected by frame type and memory width; read ACK = same buffer and count, write ACK = no payload')
     ck.rule('C06.c', 'every RPResponse verdict has an arm answering with that code, the payload class of the document, octet semantics, and the reported address resp. the buffer size')
@@ -293,6 +329,7 @@ def run(ck):
     rule_ab(ck, R)
     rule_config(ck, R)
     rule_c(ck, R)
+    rule_decoder_state(ck, R)
     # d: echo rules live in c08.rule_h / rule_fg; re-evaluate under this property
     from . import c08
     orig_v, orig_viol, orig_floor = ck.verdict, ck.violation, ck.floor
